@@ -312,6 +312,13 @@ func runRebits(p *Plan, tape *simrt.Tape, opt RunOpt) *RunOut {
 	}
 	var jobs []job
 	sample := p.x("sample", 30)
+	if sample == 0 && (b1 >= 20 || b2 >= 20) {
+		// every boot of a 2^20..2^24-bucket index reads and writes a table of
+		// 8-128 MiB: enumerating every crash point of one such history would
+		// take minutes of real time, so it is sampled in the thorough tier too
+		sample = 40
+		out.Probes["large-table-sampled"]++
+	}
 	all := sample == 0
 	for _, c := range cands {
 		jobs = append(jobs, job{c: c})
